@@ -14,6 +14,12 @@ use crate::common::{is_thorough, ExpSpec};
 
 pub struct C12;
 
+/// coverage counters of the in-call crash points: calls that started on a clean status byte, images rebuilt and decoded
+pub static INCALL_CALLS: std::sync::atomic::AtomicU64 = std::sync::atomic::AtomicU64::new(0);
+pub static INCALL_IMAGES: std::sync::atomic::AtomicU64 = std::sync::atomic::AtomicU64::new(0);
+/// fault follow-up runs (another call / retry / quiet call after one failed device call)
+pub static FAULT_RUNS: std::sync::atomic::AtomicU64 = std::sync::atomic::AtomicU64::new(0);
+
 impl Checker for C12 {
     fn plan(&self) -> harness::sess::Plan {
         // (the payload of the last call's writes is needed for its in-call crash points)
@@ -63,6 +69,7 @@ impl Checker for C12 {
                     for k in 1..=ex.calls_last {
                         let plan = harness::sess::Plan { fault: Some((k, 0x00FC_0000 + k as u32)), fault_op: Some(n - 1), ..self.plan() };
                         let fx = harness::sess::run(cfg, &ops2, &plan);
+                        FAULT_RUNS.fetch_add(1, std::sync::atomic::Ordering::Relaxed);
                         if fx.panic.is_some() || fx.fired_early.is_none() || !fx.completed {
                             continue;
                         }
@@ -92,6 +99,7 @@ impl Checker for C12 {
             for k in 1..=ex.calls_last {
                 let plan = harness::sess::Plan { fault: Some((k, 0x00FC_0000 + k as u32)), fault_op: Some(n - 1), ..self.plan() };
                 let fx = harness::sess::run(cfg, &ops2, &plan);
+                FAULT_RUNS.fetch_add(1, std::sync::atomic::Ordering::Relaxed);
                 if fx.panic.is_some() || fx.fired_early.is_none() {
                     continue;
                 }
@@ -127,6 +135,9 @@ fn in_call_crash_points(cfg: &Cfg, ops: &[Op], ex: &Exec) -> Vec<(String, String
     }
     let Ok(pre) = harness::sess::decode_dev(&st, cfg, &[]) else { return v };
     let fa = pre.flat();
+    if ex.log.iter().any(|r| r.kind == harness::dev::Kind::Write) {
+        INCALL_CALLS.fetch_add(1, std::sync::atomic::Ordering::Relaxed);
+    }
     let writes = ex.log.iter().filter(|r| r.kind == harness::dev::Kind::Write).count();
     let mut seen = 0;
     for r in &ex.log {
@@ -139,6 +150,7 @@ fn in_call_crash_points(cfg: &Cfg, ops: &[Op], ex: &Exec) -> Vec<(String, String
         if status_of(&st) & 1 != 0 {
             break;
         }
+        INCALL_IMAGES.fetch_add(1, std::sync::atomic::Ordering::Relaxed);
         let differ = match harness::sess::decode_dev(&st, cfg, &[]) {
             Ok(b) => {
                 let fb = b.flat();
